@@ -53,6 +53,9 @@ func (m MonitorJ) req(table string) *MonReqJ {
 func genMonitor(r *Run, ts TxnSchema, foreign bool) MonitorJ {
 	rng := r.Rng
 	var m MonitorJ
+	if foreign && rng.Intn(3) == 0 {
+		return m // no table named: every table, every column, every kind of change
+	}
 	for _, t := range ts.Spec.Tables {
 		if rng.Intn(4) == 0 {
 			continue
